@@ -86,9 +86,9 @@ def fit_traces(tests, skip_failed=True):
 def backend_traces(tests):
     out = []
     for nodeid, start, recs, failed in tests:
-        if start.get("registry", -1) < 0 or not any(r["ev"].startswith("set_backend") or r["ev"] == "events.subscribe" for r in recs):
+        if start.get("registry", -1) < 0 or not any(r["ev"].startswith("set_backend") or r["ev"] in ("events.subscribe", "fit.shim") for r in recs):
             continue
-        t = to_trace(0, (start["backend"], start["precision"]), start["registry"], recs)
+        t = to_trace(0, (start["backend"], start["precision"]), start["registry"], recs, init_opt=start.get("optimizer", "scipy"))
         t["label"] = nodeid
         out.append(t)
     return out
